@@ -108,6 +108,9 @@ def prim_value(typ, fparams, P, ctx):
 def run_facets(task):
     kind, k = task[0], task[1]
     form = task[2] if len(task) > 2 else None
+    left = (form == 'left')
+    if left:
+        form = None
     t0 = time.time()
     stubs.install()
     from t4_geom_convert.Kernel.Surface import MacroBodies as MB
@@ -121,7 +124,9 @@ def run_facets(task):
         # out of z3's reach here); the vertex is symbolic.
         rname, R = task[3], task[4]
         unit += '@' + rname
-        pv, pre = chain_params('WED', 12, None, R)
+        pv, pre = chain_params('WED-left' if left else 'WED', 12, None, R)
+        if left:
+            unit += '/left-handed' 
     elif kind == 'ELL' and form > 0:
         # positive form: the axis direction comes from the finite rotation set (the nested square roots of
         # a fully symbolic axis are out of z3's reach in reasonable time); centre, half-distance and
@@ -392,6 +397,9 @@ def chain_params(kind, k, form, R):
         return f1 + f2 + [L[1]], pos[:2] + [L[0].e < 2 * L[1].e]
     if kind == 'WED':
         return o + sc(L[0], ex) + sc(L[1], ey) + sc(L[2], ez), pos[:3]
+    if kind == 'WED-left':
+        # left-handed triple: the height points against a x b
+        return o + sc(L[0], ex) + sc(L[1], ey) + sc(-L[2], ez), pos[:3]
     raise ValueError(kind)
 
 
@@ -585,6 +593,7 @@ def run(tier):
     rots = rotations.quick_set() if tier == 'quick' else rotations.full_set()
     tasks = [('F', b) for b in BODIES if b[0] != 'WED' and b != ('ELL', 7, 1)]
     tasks += [('F', ('WED', 12, None, rname, R)) for rname, R in rots]
+    tasks += [('F', ('WED', 12, 'left', rname, R)) for rname, R in rots[:3]]
     tasks += [('F', ('ELL', 7, 1, rname, R)) for rname, R in rots]
     tasks += [('P', ('C', 7)), ('P', ('K', 7))]
     for b in BODIES:
@@ -608,7 +617,7 @@ def run(tier):
             pick = allsig
         for sg in dict.fromkeys(pick):
             tasks.append(('A', (a, sg)))
-    nfd = 16 if tier == 'quick' else 160
+    nfd = 16 if tier == 'quick' else 400
     tasks += [('D', seed_value() * 7 + i) for i in range(nfd)]
     for r in run_pool(dispatch, tasks):
         rep.merge(r)
